@@ -267,6 +267,41 @@ def wl_partition(ctx, rng, i):
                     ctx.violation("navigation-raised", "composite query with attached filter raised %s" % type(e).__name__, dict(c2, exception=repr(e), attached=fdesc(f)))
                 finally:
                     cds.filters.remove(to_lib(f))
+        # nested federation: an inner composite over the members, itself a member of an outer composite that carries a filter;
+        # after queries through the outer one, the inner composite (used directly, or under a second unfiltered parent) must
+        # still answer as the plain union
+        try:
+            f = gen_filter(rng, union)
+            exp_f = evaluate([f], union.items, TS_PROPS)
+        except Unjudged:
+            f = None
+        if f is not None:
+            inner = stix2.CompositeDataSource()
+            inner.add_data_sources([m_[1].source for m_ in members])
+            outer = stix2.CompositeDataSource()
+            outer.add_data_source(inner)
+            outer.filters.add(to_lib(f))
+            c3 = dict(case, nesting="outer(filter %s) -> inner -> members" % (fdesc(f),))
+            try:
+                with warnings.catch_warnings():
+                    warnings.simplefilter("ignore")
+                    judge_set(ctx, "outer CompositeDataSource.query()", outer.query(), exp_f, c3)
+                    some = rng.choice(union.ids())
+                    outer.related_to(some)
+                    outer.all_versions(some)
+                    outer.get(some)
+                    judge_set(ctx, "inner CompositeDataSource.query() after use through a filtered parent", inner.query(), union.items, c3,
+                              mech_hint="composite-filters-leak-into-nested-composite")
+                    g = inner.get(some)
+                    if g is None or version_instant(norm(g)) != version_instant(union.latest(some)):
+                        ctx.violation("composite-filters-leak-into-nested-composite", "inner composite get() changed after use through a filtered parent", dict(c3, id=some))
+                    outer2 = stix2.CompositeDataSource()
+                    outer2.add_data_source(inner)
+                    judge_set(ctx, "second unfiltered parent .query()", outer2.query(), union.items, c3, mech_hint="composite-filters-leak-into-nested-composite")
+                    judge_set(ctx, "outer CompositeDataSource.query() again", outer.query(), exp_f, c3)
+                ctx.count("nested_federations")
+            except Exception as e:
+                ctx.violation("navigation-raised", "nested composite raised %s" % type(e).__name__, dict(c3, exception=repr(e)))
         # each single member against its own content; environments
         for m, (kind, st) in enumerate(members):
             if contents[m].items:
@@ -361,6 +396,8 @@ def floors(m, tier):
         out.append("fewer than 2000 navigation results judged")
     if c.get("attached_filter_lookups", 0) < 100:
         out.append("composite-attached filters checked on fewer than 100 lookups")
+    if c.get("nested_federations", 0) < 10:
+        out.append("fewer than 10 nested federations")
     if c.get("factory_calls", 0) < 200:
         out.append("fewer than 200 factory calls")
     lay = m["seen"].get("layouts", set())
